@@ -137,6 +137,18 @@ func C10(c *core.Ctx) {
 			s = z - 500 + rng.Intn(1000)
 			e = s + rng.Intn(1100)
 		}
+		if rng.Intn(3) == 0 { // calendar boundaries: window ends snapped to the first / last / last-but-one day of a month
+			snap := func(z int) int {
+				t := dayToTime(z)
+				first := timeToDay(time.Date(t.Year(), t.Month(), 1, 0, 0, 0, 0, time.UTC))
+				last := timeToDay(time.Date(t.Year(), t.Month()+1, 0, 0, 0, 0, 0, time.UTC))
+				return []int{first, last, last - 1, first + 1}[rng.Intn(4)]
+			}
+			s, e = snap(s), snap(e)
+			if e < s {
+				s, e = e, s
+			}
+		}
 		if iv == "daily" && e-s > 120 {
 			e = s + rng.Intn(120)
 		}
